@@ -45,6 +45,7 @@ VALUES = [
     ('none', lambda: None), ('open', lambda: 'open'), ('keep', lambda: 'a\n\n'), ('emptystr', lambda: ''), ('elist', lambda: []),
     ('emap', lambda: {}), ('shared', _shared), ('rec', _rec), ('nested', lambda: {'k': [1, {'j': 'v'}], 'l': 'open'}), ('longkey', lambda: {'k' * 130: 'v'}),
     ('quoted', lambda: 'a: b'), ('trail', lambda: 'x\n\n\n'), ('marker-start', lambda: '---'), ('marker-end', lambda: '...'), ('marker-text', lambda: '--- x'),
+    ('marker-line', lambda: 'intro\n--- not a marker'), ('marker-line-end', lambda: 'intro\n... not a marker\n'), ('marker-folded', lambda: 'word ' * 18 + '... and --- more ' + 'word ' * 18),
 ]
 CORE = [0, 1, 2, 4, 6]
 NODE_CORE = [0, 1, 2, 6, 11, 12]
@@ -355,6 +356,9 @@ def run_job(job, T):
         pool = VALUES if kind == 'values' else NODES
         allopts = list(opt_product())
         ls = [()] if first < 0 else list(lists(len(pool), CORE if kind == 'values' else NODE_CORE, kf, kc, first))
+        if kf <= 2 and kind == 'values':
+            # quick: the second document of a two-document list ranges over a 10-shape subset
+            ls = [t for t in ls if len(t) != 2 or t[1] in (0, 1, 2, 3, 4, 6, 10, 12, 15, 17)]
         for oi, o in enumerate(allopts):
             if oi % OC != oc:
                 continue
